@@ -115,7 +115,13 @@ def replay_case(item):
 
                     def unwrap(v):
                         return v[1:-1] if isinstance(v, str) and v.startswith('<') and v.endswith('>') else v
-                    ds = Flow(tuple_source([('t', anyf, wrapped)]), DF.set_type(pattern, on_error=handler, transform=unwrap, **opts)).datastream()
+                    def unwrap3(v, field_name, row):
+                        # the documented richer signature: the transform is told which field of which row it is looking at
+                        if field_name not in ('f1', 'f2') or row.get(field_name) is not v or row.get('f1x') is None:
+                            return 'WRONG-ARGUMENTS'
+                        return unwrap(v)
+                    tf = unwrap3 if len(c['tbl']) % 2 else unwrap
+                    ds = Flow(tuple_source([('t', anyf, wrapped)]), DF.set_type(pattern, on_error=handler, transform=tf, **opts)).datastream()
                     out = [[dict(r) for r in res] for res in ds.res_iter][0]
                 elif ch == 'validate':
                     ds = Flow(tuple_source([('t', typed, rows)]), DF.validate(on_error=handler)).datastream()
